@@ -201,6 +201,12 @@ def check(s):
     # (a buffer that rewrites `done` or shifts a flag to another slot makes the stored transition differ from what happened)
     from .C06 import check_add
     check_add(s, "C05.5", "C05.5")
+    # C05.6 the counts the collection runs with are the configured ones: learning_starts, num_steps, num_envs and buffer_size reach the
+    # like-named attributes unchanged (a constructor that "rounds learning_starts up to a batch" stores more warm-up transitions than asked)
+    from .util import ctor_wiring
+    for cls_ in ("DQN", "SAC"):
+        ctor_wiring(s, "C05.6", cls_, necessary_for="warm-up stores exactly learning_starts transitions per environment; every iteration adds num_steps per environment",
+                    skip=tuple(a for a in ("gamma", "tau", "batch_size", "policy_frequency", "autotune", "initial_alpha", "target_update_interval", "max_grad_norm")))
     from .util import no_late_binding
     no_late_binding(s, "C05.5", ("lerax.buffer", "lerax.algorithm.off_policy"))
     for r_, n in (("C05.1", 20), ("C05.2", 4), ("C05.3", 4), ("C05.4", 10), ("C05.5", 7), ("C05.5", 40)):
